@@ -141,6 +141,10 @@ def module(mod, in_project=True):
         # the COMMON module scale (SSCL); `mod_scale` where the library has it (a controller may be called `scale`)
         "scale": _i(getattr(mod, "mod_scale", None) if hasattr(mod, "mod_scale") else mod.scale),
         "visualization": int(mod.visualization),
+        # the documented sub-fields of the visualisation word, read through their public accessors
+        "vis_fields": {k: _i(getattr(mod.visualization, k)) for k in
+                       ("level_mode", "orientation", "oscilloscope_mode", "oscilloscope_size", "bg_transparency",
+                        "shadow_opacity")},
         "color": list(mod.color),
         "midi_in_always": bool(mod.midi_in_always),
         "midi_in_channel": mod.midi_in_channel,
@@ -160,7 +164,7 @@ def module(mod, in_project=True):
         "payload": payload(mod, in_project),
     }
     if not in_project:                                      # N8
-        for k in ("x", "y", "layer", "visualization", "in_links", "in_link_slots", "out_links",
+        for k in ("x", "y", "layer", "visualization", "vis_fields", "in_links", "in_link_slots", "out_links",
                   "out_link_slots"):
             d[k] = None
     return d
